@@ -1,0 +1,294 @@
+//! Verification hook H4 (only compiled with `--features verif`): drop-in replacements for
+//! `tokio::sync::{RwLock, Mutex}` that record every acquisition request / grant / release as
+//! (task, lock, mode, call site, locks held by the task) and offer seeded scheduling points.
+//!
+//! * `VERIF_LOCK_TRACE=<file>`: append one tab-separated line per event
+//!   `seq  task  req|acq|rel  lock  r|w  file:line  held,held,…`
+//! * `VERIF_SCHED_SEED=<n>` (+ `VERIF_SCHED_MAX_MS`, default 3): before every acquisition the task
+//!   yields or sleeps for a pseudo-random time derived from the seed and a global counter.
+//!
+//! With neither variable set the wrappers only forward to the tokio types.
+
+use std::collections::HashMap;
+use std::future::Future;
+use std::io::Write;
+use std::ops::{Deref, DerefMut};
+use std::panic::Location;
+use std::sync::atomic::{AtomicU64, Ordering};
+use std::sync::{Mutex as StdMutex, OnceLock};
+
+struct Tracer {
+    file: Option<StdMutex<std::fs::File>>,
+    held: StdMutex<HashMap<String, Vec<&'static str>>>,
+    seq: AtomicU64,
+    sched_seed: Option<u64>,
+    sched_max_ms: u64,
+    sched_counter: AtomicU64,
+}
+
+fn tracer() -> &'static Tracer {
+    static T: OnceLock<Tracer> = OnceLock::new();
+    T.get_or_init(|| Tracer {
+        file: std::env::var("VERIF_LOCK_TRACE").ok().and_then(|p| {
+            std::fs::OpenOptions::new()
+                .create(true)
+                .append(true)
+                .open(p)
+                .ok()
+                .map(StdMutex::new)
+        }),
+        held: StdMutex::new(HashMap::new()),
+        seq: AtomicU64::new(0),
+        sched_seed: std::env::var("VERIF_SCHED_SEED")
+            .ok()
+            .and_then(|s| s.parse().ok()),
+        sched_max_ms: std::env::var("VERIF_SCHED_MAX_MS")
+            .ok()
+            .and_then(|s| s.parse().ok())
+            .unwrap_or(3),
+        sched_counter: AtomicU64::new(0),
+    })
+}
+
+fn task_name() -> String {
+    match tokio::task::try_id() {
+        Some(id) => format!("t{}", id),
+        None => "main".to_string(),
+    }
+}
+
+fn lock_name<T>() -> &'static str {
+    let ty = std::any::type_name::<T>();
+    if ty.contains("EmmyLuaAnalysis") {
+        "analysis"
+    } else if ty.contains("WorkspaceManager") {
+        "workspace_manager"
+    } else if ty.contains("FileId") {
+        "diagnostic_tokens"
+    } else if ty.contains("oneshot") {
+        "response_manager"
+    } else if ty.contains("RequestId") {
+        "cancellations"
+    } else if ty.contains("CancellationToken") {
+        "workspace_diagnostic_token"
+    } else if ty == "()" {
+        "reload_lock"
+    } else {
+        "unknown"
+    }
+}
+
+/// Log one event; `req` reports the held set before the acquisition, `acq` adds the lock to the
+/// task's held set, `rel` removes it.
+fn event(task: &str, ev: &str, lock: &'static str, mode: char, loc: &Location<'_>) {
+    let t = tracer();
+    let Some(file) = &t.file else {
+        return;
+    };
+    let mut held = t.held.lock().unwrap_or_else(|e| e.into_inner());
+    let entry = held.entry(task.to_string()).or_default();
+    let held_now = entry.join(",");
+    match ev {
+        "acq" => entry.push(lock),
+        "rel" => {
+            if let Some(i) = entry.iter().rposition(|l| *l == lock) {
+                entry.remove(i);
+            }
+            if entry.is_empty() {
+                held.remove(task);
+            }
+        }
+        _ => {}
+    }
+    let seq = t.seq.fetch_add(1, Ordering::SeqCst);
+    let line = format!(
+        "{}\t{}\t{}\t{}\t{}\t{}:{}\t{}\n",
+        seq,
+        task,
+        ev,
+        lock,
+        mode,
+        loc.file(),
+        loc.line(),
+        held_now
+    );
+    let mut f = file.lock().unwrap_or_else(|e| e.into_inner());
+    let _ = f.write_all(line.as_bytes());
+}
+
+/// Seeded scheduling point (SplitMix64 over seed + global counter).
+pub async fn sched_point() {
+    let t = tracer();
+    let Some(seed) = t.sched_seed else {
+        return;
+    };
+    let n = t.sched_counter.fetch_add(1, Ordering::SeqCst);
+    let mut z = seed
+        .wrapping_mul(0x9E3779B97F4A7C15)
+        .wrapping_add(n.wrapping_mul(0xD1B54A32D192ED03));
+    z = (z ^ (z >> 30)).wrapping_mul(0xBF58476D1CE4E5B9);
+    z = (z ^ (z >> 27)).wrapping_mul(0x94D049BB133111EB);
+    z ^= z >> 31;
+    match z % 4 {
+        0 => {}
+        1 | 2 => tokio::task::yield_now().await,
+        _ => {
+            let ms = (z >> 8) % (t.sched_max_ms + 1);
+            tokio::time::sleep(std::time::Duration::from_millis(ms)).await;
+        }
+    }
+}
+
+pub struct RwLock<T> {
+    inner: tokio::sync::RwLock<T>,
+    name: &'static str,
+}
+
+pub struct RwLockReadGuard<'a, T> {
+    inner: tokio::sync::RwLockReadGuard<'a, T>,
+    name: &'static str,
+    task: String,
+    loc: &'static Location<'static>,
+}
+
+pub struct RwLockWriteGuard<'a, T> {
+    inner: tokio::sync::RwLockWriteGuard<'a, T>,
+    name: &'static str,
+    task: String,
+    loc: &'static Location<'static>,
+}
+
+impl<T> RwLock<T> {
+    pub fn new(value: T) -> Self {
+        RwLock {
+            inner: tokio::sync::RwLock::new(value),
+            name: lock_name::<T>(),
+        }
+    }
+
+    #[track_caller]
+    pub fn read(&self) -> impl Future<Output = RwLockReadGuard<'_, T>> {
+        let loc = Location::caller();
+        async move {
+            sched_point().await;
+            let task = task_name();
+            event(&task, "req", self.name, 'r', loc);
+            let inner = self.inner.read().await;
+            event(&task, "acq", self.name, 'r', loc);
+            RwLockReadGuard {
+                inner,
+                name: self.name,
+                task,
+                loc,
+            }
+        }
+    }
+
+    #[track_caller]
+    pub fn write(&self) -> impl Future<Output = RwLockWriteGuard<'_, T>> {
+        let loc = Location::caller();
+        async move {
+            sched_point().await;
+            let task = task_name();
+            event(&task, "req", self.name, 'w', loc);
+            let inner = self.inner.write().await;
+            event(&task, "acq", self.name, 'w', loc);
+            RwLockWriteGuard {
+                inner,
+                name: self.name,
+                task,
+                loc,
+            }
+        }
+    }
+}
+
+impl<T> Deref for RwLockReadGuard<'_, T> {
+    type Target = T;
+    fn deref(&self) -> &T {
+        &self.inner
+    }
+}
+
+impl<T> Drop for RwLockReadGuard<'_, T> {
+    fn drop(&mut self) {
+        event(&self.task, "rel", self.name, 'r', self.loc);
+    }
+}
+
+impl<T> Deref for RwLockWriteGuard<'_, T> {
+    type Target = T;
+    fn deref(&self) -> &T {
+        &self.inner
+    }
+}
+
+impl<T> DerefMut for RwLockWriteGuard<'_, T> {
+    fn deref_mut(&mut self) -> &mut T {
+        &mut self.inner
+    }
+}
+
+impl<T> Drop for RwLockWriteGuard<'_, T> {
+    fn drop(&mut self) {
+        event(&self.task, "rel", self.name, 'w', self.loc);
+    }
+}
+
+pub struct Mutex<T> {
+    inner: tokio::sync::Mutex<T>,
+    name: &'static str,
+}
+
+pub struct MutexGuard<'a, T> {
+    inner: tokio::sync::MutexGuard<'a, T>,
+    name: &'static str,
+    task: String,
+    loc: &'static Location<'static>,
+}
+
+impl<T> Mutex<T> {
+    pub fn new(value: T) -> Self {
+        Mutex {
+            inner: tokio::sync::Mutex::new(value),
+            name: lock_name::<T>(),
+        }
+    }
+
+    #[track_caller]
+    pub fn lock(&self) -> impl Future<Output = MutexGuard<'_, T>> {
+        let loc = Location::caller();
+        async move {
+            sched_point().await;
+            let task = task_name();
+            event(&task, "req", self.name, 'w', loc);
+            let inner = self.inner.lock().await;
+            event(&task, "acq", self.name, 'w', loc);
+            MutexGuard {
+                inner,
+                name: self.name,
+                task,
+                loc,
+            }
+        }
+    }
+}
+
+impl<T> Deref for MutexGuard<'_, T> {
+    type Target = T;
+    fn deref(&self) -> &T {
+        &self.inner
+    }
+}
+
+impl<T> DerefMut for MutexGuard<'_, T> {
+    fn deref_mut(&mut self) -> &mut T {
+        &mut self.inner
+    }
+}
+
+impl<T> Drop for MutexGuard<'_, T> {
+    fn drop(&mut self) {
+        event(&self.task, "rel", self.name, 'w', self.loc);
+    }
+}
